@@ -27,6 +27,12 @@ Act == CASE E.ev = "addpar" -> AddPar(E.n, E.v, E.vary, E.cv, E.st)
          [] E.ev = "save" -> Save
          [] E.ev = "load" -> Load
          [] E.ev = "load_fresh" -> LoadFresh
+         [] E.ev = "addpar_sl" -> AddParSL(E.n, E.v, E.vary, E.cv, E.st)
+         [] E.ev = "construct" -> Construct(E.d)
+         [] E.ev = "get_variable_stepsizes" -> GetVariableStepsizes
+         [] E.ev = "get_variable_list" -> GetVariableList
+         [] E.ev = "get_parameters" -> GetParameters
+         [] E.ev = "read_par_file" -> ReadParFile
 (* bind every logged field of the projected state *)
 PostMatches == /\ pars' = P.pars /\ varylist' = P.varylist /\ variable_list' = P.variable_list
                /\ stepsizes' = P.stepsizes /\ other' = P.other /\ ret' = P.ret
